@@ -244,6 +244,8 @@ CONCS = [
          ascii_only=False),
     # ordinary names that str.upper() / casefold() turn into INBOX / into each other
     Conc('inbox-lookalike', {'a': '\u0131nbox', 'b': 'INBO\u212a'}, ascii_only=False),
+    # characters that str.splitlines() takes for line ends and a line-oriented file does not
+    Conc('line-separators', {'a': 'p\u2028q', 'b': 'r\x0bs\u0085t'}, ascii_only=False),
 ]
 CONC_BY_NAME = {c.name: c for c in CONCS}
 
